@@ -954,7 +954,7 @@ struct Value {
         }
 
         if (type == ValueType::ValuePtr) {
-            return value_->isUndefined();
+            return value_->IsUndefined();
         }
 
         return false;
@@ -968,7 +968,7 @@ struct Value {
         }
 
         if (type == ValueType::ValuePtr) {
-            return value_->isObject();
+            return value_->IsObject();
         }
 
         return false;
@@ -982,7 +982,7 @@ struct Value {
         }
 
         if (type == ValueType::ValuePtr) {
-            return value_->isArray();
+            return value_->IsArray();
         }
 
         return false;
@@ -996,7 +996,7 @@ struct Value {
         }
 
         if (type == ValueType::ValuePtr) {
-            return value_->isString();
+            return value_->IsString();
         }
 
         return false;
@@ -1010,7 +1010,7 @@ struct Value {
         }
 
         if (type == ValueType::ValuePtr) {
-            return value_->isUInt64();
+            return value_->IsUInt64();
         }
 
         return false;
@@ -1024,7 +1024,7 @@ struct Value {
         }
 
         if (type == ValueType::ValuePtr) {
-            return value_->isInt64();
+            return value_->IsInt64();
         }
 
         return false;
@@ -1038,7 +1038,7 @@ struct Value {
         }
 
         if (type == ValueType::ValuePtr) {
-            return value_->isDouble();
+            return value_->IsDouble();
         }
 
         return false;
@@ -1052,7 +1052,7 @@ struct Value {
         }
 
         if (type == ValueType::ValuePtr) {
-            return value_->isTrue();
+            return value_->IsTrue();
         }
 
         return false;
@@ -1066,7 +1066,7 @@ struct Value {
         }
 
         if (type == ValueType::ValuePtr) {
-            return value_->isFalse();
+            return value_->IsFalse();
         }
 
         return false;
@@ -1080,7 +1080,7 @@ struct Value {
         }
 
         if (type == ValueType::ValuePtr) {
-            return value_->isNull();
+            return value_->IsNull();
         }
 
         return false;
